@@ -327,13 +327,52 @@ func e2eHistoryPairs(c *e2eCtx) error {
 		dirB := filepath.Join(c.work, fmt.Sprintf("hp%04db", i))
 		defer os.RemoveAll(dirA)
 		defer os.RemoveAll(dirB)
-		if err := buildPlanned(dirA, oldTree, newTree, planA); err != nil {
-			c.violate("", "harness: history A: "+err.Error(), map[string]any{"plan": planA.String()})
-			return
-		}
-		if err := buildPlanned(dirB, oldTree, newTree, planB); err != nil {
-			c.violate("", "harness: history B: "+err.Error(), map[string]any{"plan": planB.String()})
-			return
+		if i%5 == 4 {
+			// equal trees: in A old and new are the SAME commit, in B a change and its revert lie
+			// between them (different commits, identical trees)
+			newTree = oldTree
+			planA = histPlan{shape: "same-commit"}
+			planB = histPlan{shape: "change-then-revert"}
+			build := func(dir string, revert bool) error {
+				if _, err := proj.InitRepo(dir, oldTree, 1700000000); err != nil {
+					return err
+				}
+				if _, err := proj.Git(dir, 0, "tag", "vold"); err != nil {
+					return err
+				}
+				if !revert {
+					return nil
+				}
+				mod := cloneTree(oldTree)
+				for _, k := range sortedKeys(mod) {
+					if strings.HasSuffix(k, ".go") && strings.Contains(mod[k], "\nfunc ") {
+						mod[k] = mod[k] + "\nfunc AddedThenReverted() int {\n\treturn 7\n}\n"
+						break
+					}
+				}
+				if _, err := proj.Commit(dir, mod, 1700000100, "change"); err != nil {
+					return err
+				}
+				_, err := proj.Commit(dir, oldTree, 1700000200, "revert")
+				return err
+			}
+			if err := build(dirA, false); err != nil {
+				c.violate("", "harness: history A: "+err.Error(), nil)
+				return
+			}
+			if err := build(dirB, true); err != nil {
+				c.violate("", "harness: history B: "+err.Error(), nil)
+				return
+			}
+		} else {
+			if err := buildPlanned(dirA, oldTree, newTree, planA); err != nil {
+				c.violate("", "harness: history A: "+err.Error(), map[string]any{"plan": planA.String()})
+				return
+			}
+			if err := buildPlanned(dirB, oldTree, newTree, planB); err != nil {
+				c.violate("", "harness: history B: "+err.Error(), map[string]any{"plan": planB.String()})
+				return
+			}
 		}
 		if treeHash(dirA, "HEAD") != treeHash(dirB, "HEAD") || treeHash(dirA, "vold") != treeHash(dirB, "vold") {
 			c.violate("", "harness: the two histories do not have equal end-point trees", map[string]any{"planA": planA.String(), "planB": planB.String()})
